@@ -4,6 +4,7 @@ import (
 	"fmt"
 	"runtime"
 	"strings"
+	"time"
 
 	"verif/h/mon"
 
@@ -206,18 +207,39 @@ func (rc *refConn) send(h rfc8907.Header, clear []byte, wellFormed bool) stepRes
 // goroutine that is stuck while processing a request: a goroutine with a tacquito frame
 // parked on a lock. It returns the first tacquito frame of that goroutine, or "".
 func stuckServerFrame() string {
-	buf := make([]byte, 4<<20)
-	buf = buf[:runtime.Stack(buf, true)]
-	for _, g := range strings.Split(string(buf), "\n\n") {
-		head := g
-		if i := strings.IndexByte(g, '\n'); i > 0 {
-			head = g[:i]
+	parked := func() map[string]string {
+		buf := make([]byte, 8<<20)
+		buf = buf[:runtime.Stack(buf, true)]
+		out := map[string]string{}
+		for _, g := range strings.Split(string(buf), "\n\n") {
+			head := g
+			if i := strings.IndexByte(g, '\n'); i > 0 {
+				head = g[:i]
+			}
+			if !strings.Contains(g, "facebookincubator/tacquito") {
+				continue
+			}
+			if strings.Contains(head, "Lock]") || strings.Contains(head, "Lock,") {
+				// "goroutine 123 [sync.RWMutex.Lock]:" -> id 123
+				f := strings.Fields(head)
+				if len(f) >= 2 {
+					out[f[1]] = mon.FirstTacquitoFrame(g)
+				}
+			}
 		}
-		if !strings.Contains(g, "facebookincubator/tacquito") {
-			continue
-		}
-		if strings.Contains(head, "Lock]") || strings.Contains(head, "Lock,") {
-			return mon.FirstTacquitoFrame(g)
+		return out
+	}
+	// Two dumps several seconds apart: only a goroutine that is parked on a lock in BOTH counts.
+	// (A single dump can catch a goroutine that is merely queueing for a mutex on a busy machine.)
+	first := parked()
+	if len(first) == 0 {
+		return ""
+	}
+	time.Sleep(5 * time.Second)
+	second := parked()
+	for id, frame := range first {
+		if _, still := second[id]; still {
+			return frame
 		}
 	}
 	return ""
